@@ -236,7 +236,10 @@ def wrongsig_case(draw):
     if other == s_:
         other = s_ + b'\x01'
     extra = [(draw(mock_sigs), draw(mock_keys)) for _ in range(draw(st.integers(0, 2)))]
-    pairs = [(s_, k_)] + [p for p in extra if p[0] not in (s_, other)]
+    extra = [p for p in extra if p[0] != s_ and p[1] != k_]
+    if extra and draw(st.booleans()):
+        other = extra[0][0]          # a signature that IS listed - for another key (cross-pairing must not be accepted)
+    pairs = [(s_, k_)] + [p for p in extra if p[0] != s_ and (p[0] != other or p == extra[0])]
     op = draw(st.sampled_from(['checksig', 'multisig'] if sv != R.TAPSCRIPT else ['checksig', 'checksigadd']))
     if op == 'checksig':
         script, stack = P(k_) + b'\xac', [other]
